@@ -9,6 +9,8 @@ signal and every rule registered at that processing instant, whether the callbac
 the AddMatch / RemoveMatch texts read off the wire are parsed by an independent parser and
 must express the same constraints.  (The built-in bus's AddMatch is exercised by C14.)
 """
+import functools
+
 from simdbus import gen, matchref, net, refcodec as rc
 from simdbus.harness import ClientRig, Obs, check_no_exceptions, exc_key
 from simdbus.kernel import SimCancelled, Violation
@@ -28,7 +30,7 @@ STATE_MEASURE = 'distinct (rule key set, near-miss kind, matched?) triples at pr
 PROBES = ['signal-matches-some-rule', 'near-miss-path-sibling', 'near-miss-namespace-sibling',
           'arg-missing', 'arg-non-string', 'argpath-trailing-slash-rule', 'argpath-trailing-slash-arg',
           'type-constraint-other', 'signal-while-add-pending', 'signal-while-del-pending',
-          'signal-after-removal', 'callback-raised', 'two-senders-same-serial-back-to-back', 'addmatch-refused', 'rule-cancelled-from-its-callback', 'callable-shared-by-rules', 'shared-callable-ran-per-rule', 'proxy-signal-right-signature',
+          'signal-after-removal', 'callback-raised', 'callback-without-a-name', 'subscription-cancelled-twice', 'two-senders-same-serial-back-to-back', 'addmatch-refused', 'rule-cancelled-from-its-callback', 'callable-shared-by-rules', 'shared-callable-ran-per-rule', 'proxy-signal-right-signature',
           'proxy-signal-wrong-signature', 'two-rules-one-signal', 'apostrophe-in-value',
           'empty-body-with-arg-rule', 'proxy-subscription-without-interface',
           'same-rule-id-on-two-connections']
@@ -219,17 +221,46 @@ def scenario(ctx):
                     if m.mtype == rc.METHOD_CALL and m.fields.get(rc.F_MEMBER) == 'RemoveMatch':
                         pending_calls[m.serial] = (idx, 'del')
                 sim.probe('rule-cancelled-from-its-callback')
+            elif r.get('oneshot') and r['state'] == 'deleting' and r['proxy_sig'] is not None:
+                # a careless one-shot handler: the signal came again before the daemon confirmed
+                # the removal, and it cancels again; one subscription is one RemoveMatch
+                n0 = len(rig.sent)
+                proxy[0].cancelSignalNotification(r['id'])
+                again = [m for m in rig.sent[n0:] if m.mtype == rc.METHOD_CALL
+                         and m.fields.get(rc.F_MEMBER) == 'RemoveMatch']
+                sim.probe('subscription-cancelled-twice')
+                if again:
+                    # (raised from the invariant: the router contains what callbacks raise)
+                    stashed.append(Violation('C12/removematch-call', 'second RemoveMatch for one subscription',
+                                             'cancelSignalNotification(%r) called again before the reply '
+                                             'wrote another RemoveMatch %r' % (r['id'], again[0].body)))
             if rules[idx]['raises']:
                 sim.probe('callback-raised')
                 if rules[idx]['raises'] == 2:
                     raise SimCancelled('callback %d cancelled' % idx)
                 raise RuntimeError('callback %d fails' % idx)
     holders = {}
+    stashed = []
+
+    class CallableObject:
+        """a callback that is an object with __call__ (no __name__)"""
+
+        def __init__(self, h):
+            self.h = h
+
+        def __call__(self, *a):
+            return self.h.run(*a)
 
     def mk_cb(idx):
         if idx not in holders:
-            holders[idx] = Holder(idx)
-        return holders[idx].run
+            h = holders[idx] = Holder(idx)
+            # a bound method, a functools.partial or a callable object
+            h.form = ds.weighted([6, 1.5, 1.5])
+            h.cb = [None, functools.partial(h.run), CallableObject(h)][h.form]
+            if h.form:
+                sim.probe('callback-without-a-name')
+        h = holders[idx]
+        return h.run if h.form == 0 else h.cb
 
     def scan_sent():
         new = rig.sent[nseen[0]:]
@@ -378,6 +409,8 @@ def scenario(ctx):
     ninv = [0]
 
     def invariant():
+        if stashed:
+            raise stashed[0]
         check_no_exceptions(sim, 'C12')
         rig.check_wire('C12')
         # walk the frames delivered in this step in stream order
